@@ -4,6 +4,7 @@ import (
 	"fmt"
 	"go/token"
 	"go/types"
+	"strings"
 
 	"golang.org/x/tools/go/ssa"
 )
@@ -11,7 +12,7 @@ import (
 func init() {
 	register(&propInfo{
 		ID:          "C11",
-		Explanation: "Path and value-origin analysis of the error path between handler and caller: (R11.1) the server's error constructor returns a non-nil pointer on every path; the dispatcher sets the reply's error exactly on the branch where the handler's error is non-nil, and sets the result only where the reply's error is nil; (R11.2) on the client, every failed conversion of a registered error type returns the generic error value itself (never nil, never a dereferenced or zero value), and conversion is attempted only for a non-nil reply error; (R11.3) the error registry's Register updates both directions with the same (type, code) pair, the server looks the code up under the dynamic type of the very error the handler returned, and message/code of the generic error come from that error; (R11.4) on transport or local failures the generated client function returns the zero value of the declared result type and a non-nil client error wrapping the cause. (R11.6) every use of a message writer in the library package is json.NewEncoder, or a Write of a constant, of a json.Marshal result or of a writer wrapper's own parameter: no hand-formatted reply.",
+		Explanation: "Path and value-origin analysis of the error path between handler and caller: (R11.1) the server's error constructor returns a non-nil pointer on every path; the dispatcher sets the reply's error exactly on the branch where the handler's error is non-nil, and sets the result only where the reply's error is nil; (R11.2) on the client, every failed conversion of a registered error type returns the generic error value itself (never nil, never a dereferenced or zero value), and conversion is attempted only for a non-nil reply error; (R11.3) the error registry's Register updates both directions with the same (type, code) pair, the server looks the code up under the dynamic type of the very error the handler returned, and message/code of the generic error come from that error; (R11.4) on transport or local failures the generated client function returns the zero value of the declared result type and a non-nil client error wrapping the cause. (R11.6) every use of a message writer in the library package is json.NewEncoder, or a Write of a constant, of a json.Marshal result or of a writer wrapper's own parameter: no hand-formatted reply. (R11.7) on the client call path reflect.Value.Set is never applied to a Value kept in a field of a long-lived object; (R11.8) no Go quoting under a MarshalJSON method.",
 		NotDecided:  "Type/content round trip of registered error types and message bytes (values through encoding/json and user codecs).",
 		Assumptions: []string{"Errors.Register, NewErrors, ErrClient and JSONRPCError are resolved by their exported names (public API)"},
 		Run:         runC11,
@@ -26,6 +27,10 @@ func runC11(c *Ctx) {
 	c.rule("R11.4", "transport/local failures return the zero value and a non-nil wrapping client error")
 	c.rule("R11.5", "the reply encoder produces its bytes only through encoding/json (error messages cannot break the reply's well-formedness)")
 	c.encoderUsesJSON("R11.5")
+	c.ruleOpt("R11.8", "text put on the wire by a MarshalJSON method of the library is escaped by encoding/json, never by Go quoting (strconv.Quote/AppendQuote, %q), whose \\a \\v \\x.. \\U........ escapes are not JSON: such a message makes the whole reply unencodable")
+	c.noGoQuotingInMarshal("R11.8")
+	c.ruleOpt("R11.7", "the error result a call returns is a value of its own: on the client call path (reflect.Value).Set is never applied to a Value kept in a field of the call descriptor or the client (two overlapping calls of one method would overwrite each other's error)")
+	c.resultSlotsPerCall("R11.7")
 	c.rule("R11.6", "everything written to a message writer is produced by encoding/json (or is a constant framing byte, or forwarded by a writer wrapper): no hand-formatted reply")
 	c.writerBytesJSON("R11.6")
 	if !c.need("R11.1", "T_rpcerr / FN_disp / T_resp", r.TRPCErr != nil && r.FnDisp != nil && r.TResp != nil) {
@@ -729,5 +734,78 @@ func (c *Ctx) writerBytesJSON(rule string) {
 	}
 	if n == 0 {
 		c.und(rule, "message writer uses", "-", "no use of an io.Writer found in the library package")
+	}
+}
+
+// resultSlotsPerCall: R11.7. In the region of the client's call function every receiver of
+// (reflect.Value).Set is a per-call value: none of its origins is read out of a field of an
+// object reached through a pointer (the call descriptor, the client), which outlives the call.
+func (c *Ctx) resultSlotsPerCall(rule string) {
+	r := c.R
+	if r.FnCall == nil {
+		return
+	}
+	n := 0
+	for _, g := range c.region(r.FnCall) {
+		allInstrsRaw(g, func(in ssa.Instruction) {
+			ci, ok := in.(*ssa.Call)
+			if !ok || calleeName(ci) != "(reflect.Value).Set" {
+				return
+			}
+			n++
+			construct := fmt.Sprintf("%s: target of a reflect Set on the call path", fname(g))
+			var shared *types.Var
+			for _, o := range c.origins(ci.Common().Args[0]) {
+				if f := o.last(); f != nil && isNamed(f.Type(), "reflect", "Value") {
+					shared = f
+				}
+			}
+			if shared != nil {
+				c.bad(rule, construct, c.ipos(ci), fmt.Sprintf("the value being set is kept in field %s of an object that outlives the call: overlapping calls of the same method share it, so a failing call can return nil or another call's error", shared.Name()))
+			} else {
+				c.ok(rule, construct, c.ipos(ci), "a value made for this call")
+			}
+		})
+	}
+	if n == 0 {
+		c.ok(rule, "reflect Set on the call path", "-", "none")
+	}
+}
+
+// noGoQuotingInMarshal: R11.8.
+func (c *Ctx) noGoQuotingInMarshal(rule string) {
+	p := c.P
+	n := 0
+	for _, fn := range p.Funcs {
+		if !p.inTree(fn) || fn.Name() != "MarshalJSON" || fn.Signature.Recv() == nil {
+			continue
+		}
+		n++
+		construct := fmt.Sprintf("%s: string escaping", fname(fn))
+		var bad ssa.Instruction
+		p.coneInstrs(fn, func(in ssa.Instruction) {
+			ci, ok := in.(ssa.CallInstruction)
+			if !ok {
+				return
+			}
+			switch calleeName(ci) {
+			case "strconv.Quote", "strconv.AppendQuote", "strconv.QuoteToASCII", "strconv.AppendQuoteToASCII", "strconv.QuoteToGraphic", "strconv.AppendQuoteToGraphic":
+				bad = in
+			case "fmt.Sprintf", "fmt.Fprintf", "fmt.Appendf":
+				for _, a := range ci.Common().Args {
+					if s, ok := constString(a); ok && strings.Contains(s, "%q") {
+						bad = in
+					}
+				}
+			}
+		})
+		if bad != nil {
+			c.bad(rule, construct, c.ipos(bad), "a MarshalJSON method quotes text with Go syntax: for messages containing control characters or non-printable runes the output is not valid JSON, the encoder rejects the whole reply and the caller gets a transport error (or, over WebSocket, nothing) instead of the handler's error")
+		} else {
+			c.ok(rule, construct, p.pos(fn.Pos()), "no Go quoting")
+		}
+	}
+	if n == 0 {
+		c.ok(rule, "MarshalJSON methods", "-", "none")
 	}
 }
